@@ -11,7 +11,7 @@ SPEC = {
              'p% / %p x X plain or money (code suffix, symbol prefix, k/M suffix) in every rated currency x separator conventions; '
              'values from {0, +-1, integers, fractions with 1-6 decimals, p > 100, p < 0, p = 0, B = 0}. Oracle: exact rational '
              'arithmetic on the literal values, tolerance 1e-12 x (sum of magnitudes of the formula terms); the kind (number / percent / '
-             'money and its currency) must match exactly. non-trivial = every case; distinct = distinct (separators, text)'),
+             'money and its currency) must match exactly; the printed answer is judged with the print oracle of C07 under varied digit settings for numbers and percentages. non-trivial = every case; distinct = distinct (separators, text)'),
     'min_nontrivial': 2000,
     'budget_s': {'quick': 30, 'thorough': 300},
     'assumptions': ['a zero divisor yields 0', '"A is what % of B" is generated with A and B both plain or both in the same currency'],
@@ -58,6 +58,9 @@ FORM_RULE = {'of': 'number_of', 'of_r': 'number_of', 'on': 'number_on', 'on_r': 
              'what_pct': 'find_numbers_percent', 'pct_of_what': 'find_total_from_percent'}
 
 
+from .c07 import judge_print
+
+
 def run_shard(ctx):
     rng = ctx.rng
     res = ctx.res
@@ -69,7 +72,8 @@ def run_shard(ctx):
     all_codes = sorted(c for c in lex.currencies() if c not in zone_names and c not in lex.all_words('en') - set(lex.currencies()))
     while not ctx.out_of_time():
         sep = rng.choice(SEP_CONFIGS) if rng.random() < 0.5 else SEP_CONFIGS[0]
-        cfg = mon.cfg_with(dec=sep[0], thou=sep[1])
+        # the number of decimals for plain numbers and for percentages are two settings: a result is printed with the one of its own kind
+        cfg = mon.cfg_with(dec=sep[0], thou=sep[1], digits=rng.choice([2, 2, 0, 4]), pdigits=rng.choice([2, 2, 0, 3]), rm=rng.random() < 0.7, mrm=False, mround=True)
         items, meta = [], []
         # the phrases are configured with the same words in every language; the formulas do not depend on the language
         lang = 'en' if rng.random() < 0.65 else rng.choice(LANGS)
@@ -181,6 +185,12 @@ def run_shard(ctx):
                 got = mon.fval(slot)
                 if not mon.close(got, want, scale if scale else 1):
                     problem = 'expected %r, got %r' % (float(want), got)
+                else:
+                    # the printed answer shows the value it carries (sign, digits of its own kind; C07's oracle)
+                    why = judge_print(slot, k, cfg, sep, lex.currencies(), {})
+                    if why:
+                        problem = 'the value %r is printed as %r: %s' % (got, slot.get('out'), why)
+                        form = 'print:' + form
             if problem is None:
                 res.count('ok')
                 if res.cases % 499 == 0:
